@@ -66,7 +66,7 @@ def _runs(draw):
             ops.append([kind])
     tol = draw(st.sampled_from([1e-3, 1e-6, 1e-8])) if dtype != "float32" else draw(st.sampled_from([1e-3, 1e-4]))
     return dict(part="runs", method=method, dtype=dtype, prob=prob, y0=draw(PR.state([n])), t0=t0, tf=tf, dt=dt,
-                rtol=tol, atol=tol, dense=draw(st.booleans()), ops=ops)
+                rtol=tol, atol=tol, dense=draw(st.booleans()), ops=ops, eta=draw(st.sampled_from([False] * 5 + [True])))
 
 
 @st.composite
@@ -207,7 +207,7 @@ def check(case):
     method = case["method"]
     fam = M.family(M.get(method))
     attrs = dict(method=method, family=fam, dtype=case["dtype"])
-    labels = ["family:" + fam, "dtype:" + case["dtype"]] + traj.span_class(case["t0"], case["tf"])
+    labels = ["family:" + fam, "dtype:" + case["dtype"]] + traj.span_class(case["t0"], case["tf"]) + (["progress_bar_requested"] if case.get("eta") else [])
     viols = []
     try:
         a, f, y0 = traj.make_system(case)
@@ -284,7 +284,7 @@ def check(case):
                 limit = n_before + (400 if fam in ("implicit_fixed", "implicit_embedded", "richardson") else COST_CAP)
         else:
             limit = n_before + 5
-        err = traj.run_integrate(a, None if kind == "integrate" else dt(target), step_limit=limit)
+        err = traj.run_integrate(a, None if kind == "integrate" else dt(target), step_limit=limit, eta=bool(case.get("eta")))
         if isinstance(err, traj.StepCap):
             if moving and count_verdict:
                 viols.append(V("too_many_steps", "{}: integrating from {!r} to {!r} with dt={!r} recorded more than ceil(|span|/(|dt| - ulp/2)) + 2 = {} steps".format(
